@@ -41,6 +41,16 @@ impl Elem for Rat {
     }
     fn show(&self) -> String { format!("{}", self) }
 }
+/// `f64` runs use integer-valued data only: `+ - *` on small integers are exact in binary
+/// floating point, so the answers are compared as integers with the integer model (division and
+/// rounding behaviour of floats are not part of these runs).
+impl Elem for f64 {
+    fn parse(s: &str) -> f64 { s.parse::<i64>().expect("integer-valued f64") as f64 }
+    fn show(&self) -> String {
+        assert!(self.fract() == 0.0 && self.abs() < 9.0e15, "f64 run left the exact integer range");
+        (*self as i64).to_string()
+    }
+}
 impl Elem for i64 {
     fn parse(s: &str) -> i64 { s.parse().expect("i64") }
     fn show(&self) -> String { self.to_string() }
@@ -69,6 +79,8 @@ const T_PLAIN: [&str; 8] = ["t", "rt", "v", "rv", "qv", "rqv", "bv", "rbv"];
 const T_ACCESS: [&str; 4] = ["av", "rav", "bv", "rbv"];
 const T_TRANSPOSE: [&str; 4] = ["xv", "rxv", "bv", "rbv"];
 const T_BOXED: [&str; 2] = ["bv", "rbv"];
+const T_LITE: [&str; 4] = ["t", "rt", "bv", "rbv"];
+const M_LITE: [&str; 4] = ["m", "rm", "bw", "rbw"];
 const M_PLAIN: [&str; 8] = ["m", "rm", "w", "rw", "qw", "rqw", "bw", "rbw"];
 const M_RANGE: [&str; 4] = ["gw", "rgw", "bw", "rbw"];
 const M_BOXED: [&str; 2] = ["bw", "rbw"];
@@ -117,11 +129,11 @@ fn base_form(f: &str) -> &'static str {
 }
 
 #[derive(Clone, Copy, PartialEq)]
-enum Ety { Fp, Rat, I64 }
+enum Ety { Fp, Rat, I64, F64 }
 
 impl Ety {
     fn name(self) -> &'static str {
-        match self { Ety::Fp => "fp", Ety::Rat => "rat", Ety::I64 => "i64" }
+        match self { Ety::Fp => "fp", Ety::Rat => "rat", Ety::I64 => "i64", Ety::F64 => "f64" }
     }
 }
 
@@ -138,7 +150,7 @@ fn rand_val(g: &mut Gen, e: Ety) -> String {
             let d = g.rng.range(1, 4) as i64;
             Rat::new(n as i128, d as i128).show()
         }
-        Ety::I64 => (g.rng.below(41) as i64 - 20).to_string(),
+        Ety::I64 | Ety::F64 => (g.rng.below(41) as i64 - 20).to_string(),
     }
 }
 
@@ -179,7 +191,8 @@ impl<'a> CaseGen<'a> {
         let n: usize = shape.iter().map(|d| d.1).product();
         let vals = rand_vals(self.g, self.e, n);
         self.g.op(format!("t {} {} {}", name, show_shape(shape), vals));
-        GOp { name, shape: shape.to_vec(), forms: &T_PLAIN, kind: "tensor" }
+        let forms: &'static [&'static str] = if self.e != Ety::Fp { &T_LITE } else { &T_PLAIN };
+        GOp { name, shape: shape.to_vec(), forms, kind: "tensor" }
     }
     /// a view with view shape `shape` whose iteration order differs from its storage order (or
     /// that at least goes through the adaptor's index mapping)
@@ -199,7 +212,8 @@ impl<'a> CaseGen<'a> {
                 if perm.iter().enumerate().any(|(i, &p)| i != p) {
                     self.g.count("operand.view.order_differs_from_storage");
                 }
-                GOp { name, shape: shape.to_vec(), forms: &T_ACCESS, kind: "access" }
+                let forms: &'static [&'static str] = if self.e != Ety::Fp { &T_BOXED } else { &T_ACCESS };
+                GOp { name, shape: shape.to_vec(), forms, kind: "access" }
             }
             1 => {
                 // TensorTranspose: names stay in source order, lengths follow the request.
@@ -220,7 +234,8 @@ impl<'a> CaseGen<'a> {
                 if perm.iter().enumerate().any(|(i, &p)| i != p) {
                     self.g.count("operand.view.order_differs_from_storage");
                 }
-                GOp { name, shape: shape.to_vec(), forms: &T_TRANSPOSE, kind: "transpose" }
+                let forms: &'static [&'static str] = if self.e != Ety::Fp { &T_BOXED } else { &T_TRANSPOSE };
+                GOp { name, shape: shape.to_vec(), forms, kind: "transpose" }
             }
             2 => {
                 // TensorRange of a larger tensor
@@ -287,7 +302,8 @@ impl<'a> CaseGen<'a> {
         let name = self.fresh("M");
         let vals = rand_vals(self.g, self.e, rows * cols);
         self.g.op(format!("m {} {} {} {}", name, rows, cols, vals));
-        GOp { name, shape: vec![("row", rows), ("column", cols)], forms: &M_PLAIN, kind: "matrix" }
+        let forms: &'static [&'static str] = if self.e != Ety::Fp { &M_LITE } else { &M_PLAIN };
+        GOp { name, shape: vec![("row", rows), ("column", cols)], forms, kind: "matrix" }
     }
     fn matrix_view(&mut self, rows: usize, cols: usize, kind: usize) -> GOp {
         match kind {
@@ -297,7 +313,8 @@ impl<'a> CaseGen<'a> {
                 let name = self.fresh("W");
                 self.g.op(format!("w {} {} range {}:{} {}:{}", name, s.name, rb, rows, cb, cols));
                 self.g.count("operand.matrixview.range");
-                GOp { name, shape: vec![("row", rows), ("column", cols)], forms: &M_RANGE, kind: "mrange" }
+                let forms: &'static [&'static str] = if self.e != Ety::Fp { &M_BOXED } else { &M_RANGE };
+                GOp { name, shape: vec![("row", rows), ("column", cols)], forms, kind: "mrange" }
             }
             1 => {
                 let s = self.matrix(rows, cols);
@@ -607,6 +624,9 @@ fn gen_matrix_elementwise_case(g: &mut Gen, e: Ety, rows: usize, cols: usize) {
             for sf in ["s", "rs"] {
                 let f = o.forms[c.g.rng.below(o.forms.len())];
                 let mut s = rand_val(c.g, c.e);
+                if op == "sdiv" && c.e == Ety::F64 {
+                    continue;
+                }
                 if op == "sdiv" && c.e == Ety::I64 && s == "0" {
                     s = "3".into();
                 }
@@ -629,6 +649,9 @@ fn gen_scalar_case(g: &mut Gen, e: Ety, lens: &[usize]) {
             for f in o.forms.iter() {
                 let sf = if c.g.rng.chance(1, 2) { "s" } else { "rs" };
                 let mut s = rand_val(c.g, c.e);
+                if op == "sdiv" && c.e == Ety::F64 {
+                    continue;
+                }
                 if op == "sdiv" && c.e == Ety::I64 && s == "0" {
                     s = "-7".into();
                 }
@@ -700,16 +723,22 @@ pub fn gen(g: &mut Gen) {
     let thorough = g.thorough;
     // elementwise: every small shape with Fp, a sample with Rat / i64
     let lens_list = if thorough { all_lens(3, 5, 60) } else { all_lens(3, 3, 18) };
-    for lens in &lens_list {
+    let reps = if thorough { 3 } else { 1 };
+    for lens in lens_list.iter().cycle().take(lens_list.len() * reps) {
         gen_elementwise_case(g, Ety::Fp, lens);
         if thorough || g.rng.chance(1, 3) {
             gen_elementwise_case(g, Ety::Rat, lens);
         }
-        if g.rng.chance(1, 5) {
+        // the i64 runner of the harness is a reduced one: D in {1, 2}, main flavours only
+        let i64_ok = lens.len() == 1 || lens.len() == 2;
+        if i64_ok && g.rng.chance(1, 3) {
             gen_elementwise_case(g, Ety::I64, lens);
         }
+        if i64_ok && g.rng.chance(1, 3) {
+            gen_elementwise_case(g, Ety::F64, lens);
+        }
         if thorough || g.rng.chance(1, 2) {
-            let e = [Ety::Fp, Ety::Rat, Ety::I64][g.rng.below(3)];
+            let e = if i64_ok { [Ety::Fp, Ety::Rat, Ety::I64, Ety::F64][g.rng.below(4)] } else { [Ety::Fp, Ety::Rat][g.rng.below(2)] };
             gen_elementwise_reject_case(g, e, lens);
         }
         if thorough || g.rng.chance(1, 3) {
@@ -718,6 +747,7 @@ pub fn gen(g: &mut Gen) {
         }
     }
     gen_scalar_case(g, Ety::I64, &[2, 3]);
+    gen_scalar_case(g, Ety::F64, &[3, 2]);
     gen_scalar_case(g, Ety::Rat, &[3, 2]);
     gen_scalar_case(g, Ety::Fp, &[]);
     // matrix multiplication: all M x N . N x L up to the tier's bound for Fp
@@ -725,7 +755,7 @@ pub fn gen(g: &mut Gen) {
     for m in 1..=mm {
         for n in 1..=mn {
             for l in 1..=ml {
-                let full = thorough && (m <= 4 && n <= 5 && l <= 4 || g.rng.chance(1, 6));
+                let full = thorough && (m <= 4 && n <= 5 && l <= 4 || g.rng.chance(1, 2));
                 if full || !thorough {
                     gen_matmul_case(g, Ety::Fp, m, n, l);
                 }
@@ -735,8 +765,11 @@ pub fn gen(g: &mut Gen) {
                 if g.rng.chance(1, 20) {
                     gen_matmul_case(g, Ety::I64, m, n, l);
                 }
+                if g.rng.chance(1, 20) {
+                    gen_matmul_case(g, Ety::F64, m, n, l);
+                }
                 if g.rng.chance(1, 6) {
-                    let e = [Ety::Fp, Ety::Rat, Ety::I64][g.rng.below(3)];
+                    let e = [Ety::Fp, Ety::Rat, Ety::I64, Ety::F64][g.rng.below(4)];
                     gen_agree_case(g, e, m, n, l);
                 }
             }
@@ -749,9 +782,10 @@ pub fn gen(g: &mut Gen) {
         gen_matmul_case(g, Ety::Fp, 4, 5, 3);
         gen_matmul_case(g, Ety::Rat, 4, 5, 3);
         gen_matmul_case(g, Ety::I64, 4, 5, 3);
+        gen_matmul_case(g, Ety::F64, 4, 5, 3);
     }
     for _ in 0..(if thorough { 60 } else { 12 }) {
-        let e = [Ety::Fp, Ety::Rat, Ety::I64][g.rng.below(3)];
+        let e = [Ety::Fp, Ety::Rat, Ety::I64, Ety::F64][g.rng.below(4)];
         gen_matmul_reject_case(g, e);
     }
     // matrices: elementwise, negation, scalars
@@ -765,6 +799,9 @@ pub fn gen(g: &mut Gen) {
             if g.rng.chance(1, 6) {
                 gen_matrix_elementwise_case(g, Ety::I64, r, c);
             }
+            if g.rng.chance(1, 6) {
+                gen_matrix_elementwise_case(g, Ety::F64, r, c);
+            }
         }
     }
     // scalar products
@@ -773,6 +810,7 @@ pub fn gen(g: &mut Gen) {
         gen_dot_case(g, Ety::Rat, n);
         if n <= 3 {
             gen_dot_case(g, Ety::I64, n);
+            gen_dot_case(g, Ety::F64, n);
         }
     }
     // catalogue of operator impls found in the sources (so that a new form cannot be missed)
@@ -854,8 +892,233 @@ fn panic_or<T>(r: Result<T, PanicKind>, f: impl FnOnce(T) -> String) -> String {
     }
 }
 
+/// binds `$x` to the operand in the requested flavour and evaluates `$body`.
+/// To keep the number of monomorphised operator instances (and the compile time)
+/// bounded, a binary operation pairs the six main flavours with each other, and each
+/// of the six statically typed extra flavours with `rt` / `bv` on the other side.
+macro_rules! with_t_main {
+    ($form:expr, $o:expr, $x:ident => $body:expr) => {
+        match $form {
+            "t" => { let $x = $o.plain(); $body }
+            "rt" => { let tmp = $o.plain(); let $x = &tmp; $body }
+            "v" => { let $x = TensorView::from($o.plain()); $body }
+            "rv" => { let tmp = TensorView::from($o.plain()); let $x = &tmp; $body }
+            "bv" => { let $x = TensorView::from($o.boxed()); $body }
+            "rbv" => { let tmp = TensorView::from($o.boxed()); let $x = &tmp; $body }
+            other => panic!("unknown main tensor form {}", other),
+        }
+    };
+}
+macro_rules! with_t_extra {
+    ($form:expr, $o:expr, $x:ident => $body:expr) => {
+        match $form {
+            "qv" => { let tmp = $o.plain(); let $x = TensorView::from(&tmp); $body }
+            "rqv" => { let tmp = $o.plain(); let tmp2 = TensorView::from(&tmp); let $x = &tmp2; $body }
+            "av" => { let $x = TensorView::from($o.access()); $body }
+            "rav" => { let tmp = TensorView::from($o.access()); let $x = &tmp; $body }
+            "xv" => { let $x = TensorView::from($o.transposed()); $body }
+            "rxv" => { let tmp = TensorView::from($o.transposed()); let $x = &tmp; $body }
+            other => panic!("unknown extra tensor form {}", other),
+        }
+    };
+}
+macro_rules! with_t_two {
+    ($form:expr, $o:expr, $x:ident => $body:expr) => {
+        match $form {
+            "rt" => { let tmp = $o.plain(); let $x = &tmp; $body }
+            "bv" => { let $x = TensorView::from($o.boxed()); $body }
+            other => panic!("an extra flavour must be paired with rt or bv, not {}", other),
+        }
+    };
+}
+macro_rules! with_t_pair {
+    ($lf:expr, $l:expr, $x:ident, $rf:expr, $r:expr, $y:ident => $body:expr) => {
+        if is_main_t($lf) && is_main_t($rf) {
+            with_t_main!($lf, $l, $x => with_t_main!($rf, $r, $y => $body))
+        } else if is_main_t($rf) {
+            with_t_extra!($lf, $l, $x => with_t_two!($rf, $r, $y => $body))
+        } else {
+            with_t_two!($lf, $l, $x => with_t_extra!($rf, $r, $y => $body))
+        }
+    };
+}
+/// by-reference receivers of `elementwise*` and `scalar_product`
+macro_rules! with_t_ref {
+    ($form:expr, $o:expr, $x:ident => $body:expr) => {
+        match $form {
+            "rt" => { let tmp = $o.plain(); let $x = &tmp; $body }
+            "rv" => { let tmp = TensorView::from($o.plain()); let $x = &tmp; $body }
+            "rav" => { let tmp = TensorView::from($o.access()); let $x = &tmp; $body }
+            "rbv" => { let tmp = TensorView::from($o.boxed()); let $x = &tmp; $body }
+            other => panic!("unknown receiver form {}", other),
+        }
+    };
+}
+/// right-hand sides of `elementwise*` and `scalar_product` (`Into<TensorView>`)
+macro_rules! with_t_rhs {
+    ($form:expr, $o:expr, $x:ident => $body:expr) => {
+        match $form {
+            "t" => { let $x = $o.plain(); $body }
+            "rt" => { let tmp = $o.plain(); let $x = &tmp; $body }
+            "rv" => { let tmp = TensorView::from($o.plain()); let $x = &tmp; $body }
+            "bv" => { let $x = TensorView::from($o.boxed()); $body }
+            "rbv" => { let tmp = TensorView::from($o.boxed()); let $x = &tmp; $body }
+            other => panic!("unknown right-hand form {}", other),
+        }
+    };
+}
+/// single operands (scalar broadcasts)
+macro_rules! with_t {
+    ($form:expr, $o:expr, $x:ident => $body:expr) => {
+        if is_main_t($form) { with_t_main!($form, $o, $x => $body) } else { with_t_extra!($form, $o, $x => $body) }
+    };
+}
+macro_rules! with_m_main {
+    ($form:expr, $o:expr, $x:ident => $body:expr) => {
+        match $form {
+            "m" => { let $x = $o.plain(); $body }
+            "rm" => { let tmp = $o.plain(); let $x = &tmp; $body }
+            "w" => { let $x = MatrixView::from($o.plain()); $body }
+            "rw" => { let tmp = MatrixView::from($o.plain()); let $x = &tmp; $body }
+            "bw" => { let $x = MatrixView::from($o.boxed()); $body }
+            "rbw" => { let tmp = MatrixView::from($o.boxed()); let $x = &tmp; $body }
+            other => panic!("unknown main matrix form {}", other),
+        }
+    };
+}
+macro_rules! with_m_extra {
+    ($form:expr, $o:expr, $x:ident => $body:expr) => {
+        match $form {
+            "qw" => { let tmp = $o.plain(); let $x = MatrixView::from(&tmp); $body }
+            "rqw" => { let tmp = $o.plain(); let tmp2 = MatrixView::from(&tmp); let $x = &tmp2; $body }
+            "gw" => { let $x = MatrixView::from($o.ranged()); $body }
+            "rgw" => { let tmp = MatrixView::from($o.ranged()); let $x = &tmp; $body }
+            other => panic!("unknown extra matrix form {}", other),
+        }
+    };
+}
+macro_rules! with_m_two {
+    ($form:expr, $o:expr, $x:ident => $body:expr) => {
+        match $form {
+            "rm" => { let tmp = $o.plain(); let $x = &tmp; $body }
+            "bw" => { let $x = MatrixView::from($o.boxed()); $body }
+            other => panic!("an extra flavour must be paired with rm or bw, not {}", other),
+        }
+    };
+}
+macro_rules! with_m_pair {
+    ($lf:expr, $l:expr, $x:ident, $rf:expr, $r:expr, $y:ident => $body:expr) => {
+        if is_main_m($lf) && is_main_m($rf) {
+            with_m_main!($lf, $l, $x => with_m_main!($rf, $r, $y => $body))
+        } else if is_main_m($rf) {
+            with_m_extra!($lf, $l, $x => with_m_two!($rf, $r, $y => $body))
+        } else {
+            with_m_two!($lf, $l, $x => with_m_extra!($rf, $r, $y => $body))
+        }
+    };
+}
+macro_rules! with_m {
+    ($form:expr, $o:expr, $x:ident => $body:expr) => {
+        if is_main_m($form) { with_m_main!($form, $o, $x => $body) } else { with_m_extra!($form, $o, $x => $body) }
+    };
+}
+
+macro_rules! same_d {
+    ($a:expr, $b:expr, $x:ident, $y:ident => $body:expr) => {
+        match ($a, $b) {
+            (AnyT::D0($x), AnyT::D0($y)) => $body,
+            (AnyT::D1($x), AnyT::D1($y)) => $body,
+            (AnyT::D2($x), AnyT::D2($y)) => $body,
+            (AnyT::D3($x), AnyT::D3($y)) => $body,
+            _ => "bad-op".to_string(),
+        }
+    };
+}
+macro_rules! any_d {
+    ($a:expr, $x:ident => $body:expr) => {
+        match $a {
+            AnyT::D0($x) => $body,
+            AnyT::D1($x) => $body,
+            AnyT::D2($x) => $body,
+            AnyT::D3($x) => $body,
+        }
+    };
+}
+
+
+// ----- lite variants (Rat and i64 runs: the four main flavours t/rt/bv/rbv; i64 also only D = 1, 2),
+// to bound compile time; the Fp runs use every flavour -----
+macro_rules! with_t_main_lite {
+    ($form:expr, $o:expr, $x:ident => $body:expr) => {
+        match $form {
+            "t" => { let $x = $o.plain(); $body }
+            "rt" => { let tmp = $o.plain(); let $x = &tmp; $body }
+            "bv" => { let $x = TensorView::from($o.boxed()); $body }
+            "rbv" => { let tmp = TensorView::from($o.boxed()); let $x = &tmp; $body }
+            other => panic!("unknown lite tensor form {}", other),
+        }
+    };
+}
+macro_rules! with_t_pair_lite {
+    ($lf:expr, $l:expr, $x:ident, $rf:expr, $r:expr, $y:ident => $body:expr) => {
+        with_t_main_lite!($lf, $l, $x => with_t_main_lite!($rf, $r, $y => $body))
+    };
+}
+macro_rules! with_t_lite {
+    ($form:expr, $o:expr, $x:ident => $body:expr) => { with_t_main_lite!($form, $o, $x => $body) };
+}
+macro_rules! with_t_ref_lite {
+    ($form:expr, $o:expr, $x:ident => $body:expr) => {
+        match $form {
+            "rt" => { let tmp = $o.plain(); let $x = &tmp; $body }
+            "rbv" => { let tmp = TensorView::from($o.boxed()); let $x = &tmp; $body }
+            other => panic!("unknown lite receiver form {}", other),
+        }
+    };
+}
+macro_rules! with_t_rhs_lite {
+    ($form:expr, $o:expr, $x:ident => $body:expr) => { with_t_main_lite!($form, $o, $x => $body) };
+}
+macro_rules! with_m_main_lite {
+    ($form:expr, $o:expr, $x:ident => $body:expr) => {
+        match $form {
+            "m" => { let $x = $o.plain(); $body }
+            "rm" => { let tmp = $o.plain(); let $x = &tmp; $body }
+            "bw" => { let $x = MatrixView::from($o.boxed()); $body }
+            "rbw" => { let tmp = MatrixView::from($o.boxed()); let $x = &tmp; $body }
+            other => panic!("unknown lite matrix form {}", other),
+        }
+    };
+}
+macro_rules! with_m_pair_lite {
+    ($lf:expr, $l:expr, $x:ident, $rf:expr, $r:expr, $y:ident => $body:expr) => {
+        with_m_main_lite!($lf, $l, $x => with_m_main_lite!($rf, $r, $y => $body))
+    };
+}
+macro_rules! with_m_lite {
+    ($form:expr, $o:expr, $x:ident => $body:expr) => { with_m_main_lite!($form, $o, $x => $body) };
+}
+macro_rules! same_d_lite {
+    ($a:expr, $b:expr, $x:ident, $y:ident => $body:expr) => {
+        match ($a, $b) {
+            (AnyT::D1($x), AnyT::D1($y)) => $body,
+            (AnyT::D2($x), AnyT::D2($y)) => $body,
+            _ => "bad-op".to_string(),
+        }
+    };
+}
+macro_rules! any_d_lite {
+    ($a:expr, $x:ident => $body:expr) => {
+        match $a {
+            AnyT::D1($x) => $body,
+            AnyT::D2($x) => $body,
+            _ => "bad-op".to_string(),
+        }
+    };
+}
+
 macro_rules! runner_for {
-    ($modname:ident, $T:ty) => {
+    ($modname:ident, $T:ty, $pair_t:ident, $one_t:ident, $ref_t:ident, $rhs_t:ident, $pair_m:ident, $one_m:ident, $same_d:ident, $any_d:ident) => {
         pub mod $modname {
             use super::*;
             type T = $T;
@@ -941,137 +1204,6 @@ macro_rules! runner_for {
                 }
             }
 
-            /// binds `$x` to the operand in the requested flavour and evaluates `$body`.
-            /// To keep the number of monomorphised operator instances (and the compile time)
-            /// bounded, a binary operation pairs the six main flavours with each other, and each
-            /// of the six statically typed extra flavours with `rt` / `bv` on the other side.
-            macro_rules! with_t_main {
-                ($form:expr, $o:expr, $x:ident => $body:expr) => {
-                    match $form {
-                        "t" => { let $x = $o.plain(); $body }
-                        "rt" => { let tmp = $o.plain(); let $x = &tmp; $body }
-                        "v" => { let $x = TensorView::from($o.plain()); $body }
-                        "rv" => { let tmp = TensorView::from($o.plain()); let $x = &tmp; $body }
-                        "bv" => { let $x = TensorView::from($o.boxed()); $body }
-                        "rbv" => { let tmp = TensorView::from($o.boxed()); let $x = &tmp; $body }
-                        other => panic!("unknown main tensor form {}", other),
-                    }
-                };
-            }
-            macro_rules! with_t_extra {
-                ($form:expr, $o:expr, $x:ident => $body:expr) => {
-                    match $form {
-                        "qv" => { let tmp = $o.plain(); let $x = TensorView::from(&tmp); $body }
-                        "rqv" => { let tmp = $o.plain(); let tmp2 = TensorView::from(&tmp); let $x = &tmp2; $body }
-                        "av" => { let $x = TensorView::from($o.access()); $body }
-                        "rav" => { let tmp = TensorView::from($o.access()); let $x = &tmp; $body }
-                        "xv" => { let $x = TensorView::from($o.transposed()); $body }
-                        "rxv" => { let tmp = TensorView::from($o.transposed()); let $x = &tmp; $body }
-                        other => panic!("unknown extra tensor form {}", other),
-                    }
-                };
-            }
-            macro_rules! with_t_two {
-                ($form:expr, $o:expr, $x:ident => $body:expr) => {
-                    match $form {
-                        "rt" => { let tmp = $o.plain(); let $x = &tmp; $body }
-                        "bv" => { let $x = TensorView::from($o.boxed()); $body }
-                        other => panic!("an extra flavour must be paired with rt or bv, not {}", other),
-                    }
-                };
-            }
-            macro_rules! with_t_pair {
-                ($lf:expr, $l:expr, $x:ident, $rf:expr, $r:expr, $y:ident => $body:expr) => {
-                    if is_main_t($lf) && is_main_t($rf) {
-                        with_t_main!($lf, $l, $x => with_t_main!($rf, $r, $y => $body))
-                    } else if is_main_t($rf) {
-                        with_t_extra!($lf, $l, $x => with_t_two!($rf, $r, $y => $body))
-                    } else {
-                        with_t_two!($lf, $l, $x => with_t_extra!($rf, $r, $y => $body))
-                    }
-                };
-            }
-            /// by-reference receivers of `elementwise*` and `scalar_product`
-            macro_rules! with_t_ref {
-                ($form:expr, $o:expr, $x:ident => $body:expr) => {
-                    match $form {
-                        "rt" => { let tmp = $o.plain(); let $x = &tmp; $body }
-                        "rv" => { let tmp = TensorView::from($o.plain()); let $x = &tmp; $body }
-                        "rav" => { let tmp = TensorView::from($o.access()); let $x = &tmp; $body }
-                        "rbv" => { let tmp = TensorView::from($o.boxed()); let $x = &tmp; $body }
-                        other => panic!("unknown receiver form {}", other),
-                    }
-                };
-            }
-            /// right-hand sides of `elementwise*` and `scalar_product` (`Into<TensorView>`)
-            macro_rules! with_t_rhs {
-                ($form:expr, $o:expr, $x:ident => $body:expr) => {
-                    match $form {
-                        "t" => { let $x = $o.plain(); $body }
-                        "rt" => { let tmp = $o.plain(); let $x = &tmp; $body }
-                        "rv" => { let tmp = TensorView::from($o.plain()); let $x = &tmp; $body }
-                        "bv" => { let $x = TensorView::from($o.boxed()); $body }
-                        "rbv" => { let tmp = TensorView::from($o.boxed()); let $x = &tmp; $body }
-                        other => panic!("unknown right-hand form {}", other),
-                    }
-                };
-            }
-            /// single operands (scalar broadcasts)
-            macro_rules! with_t {
-                ($form:expr, $o:expr, $x:ident => $body:expr) => {
-                    if is_main_t($form) { with_t_main!($form, $o, $x => $body) } else { with_t_extra!($form, $o, $x => $body) }
-                };
-            }
-            macro_rules! with_m_main {
-                ($form:expr, $o:expr, $x:ident => $body:expr) => {
-                    match $form {
-                        "m" => { let $x = $o.plain(); $body }
-                        "rm" => { let tmp = $o.plain(); let $x = &tmp; $body }
-                        "w" => { let $x = MatrixView::from($o.plain()); $body }
-                        "rw" => { let tmp = MatrixView::from($o.plain()); let $x = &tmp; $body }
-                        "bw" => { let $x = MatrixView::from($o.boxed()); $body }
-                        "rbw" => { let tmp = MatrixView::from($o.boxed()); let $x = &tmp; $body }
-                        other => panic!("unknown main matrix form {}", other),
-                    }
-                };
-            }
-            macro_rules! with_m_extra {
-                ($form:expr, $o:expr, $x:ident => $body:expr) => {
-                    match $form {
-                        "qw" => { let tmp = $o.plain(); let $x = MatrixView::from(&tmp); $body }
-                        "rqw" => { let tmp = $o.plain(); let tmp2 = MatrixView::from(&tmp); let $x = &tmp2; $body }
-                        "gw" => { let $x = MatrixView::from($o.ranged()); $body }
-                        "rgw" => { let tmp = MatrixView::from($o.ranged()); let $x = &tmp; $body }
-                        other => panic!("unknown extra matrix form {}", other),
-                    }
-                };
-            }
-            macro_rules! with_m_two {
-                ($form:expr, $o:expr, $x:ident => $body:expr) => {
-                    match $form {
-                        "rm" => { let tmp = $o.plain(); let $x = &tmp; $body }
-                        "bw" => { let $x = MatrixView::from($o.boxed()); $body }
-                        other => panic!("an extra flavour must be paired with rm or bw, not {}", other),
-                    }
-                };
-            }
-            macro_rules! with_m_pair {
-                ($lf:expr, $l:expr, $x:ident, $rf:expr, $r:expr, $y:ident => $body:expr) => {
-                    if is_main_m($lf) && is_main_m($rf) {
-                        with_m_main!($lf, $l, $x => with_m_main!($rf, $r, $y => $body))
-                    } else if is_main_m($rf) {
-                        with_m_extra!($lf, $l, $x => with_m_two!($rf, $r, $y => $body))
-                    } else {
-                        with_m_two!($lf, $l, $x => with_m_extra!($rf, $r, $y => $body))
-                    }
-                };
-            }
-            macro_rules! with_m {
-                ($form:expr, $o:expr, $x:ident => $body:expr) => {
-                    if is_main_m($form) { with_m_main!($form, $o, $x => $body) } else { with_m_extra!($form, $o, $x => $body) }
-                };
-            }
-
             fn show_tensor<const D: usize>(t: &Tensor<T, D>) -> String {
                 format!("shape={} data={}", show_shape(&t.shape()), show_vals(t.iter()))
             }
@@ -1081,14 +1213,14 @@ macro_rules! runner_for {
             }
 
             fn pm<const D: usize>(op: &str, l: &TOp<D>, r: &TOp<D>, lf: &str, rf: &str) -> String {
-                let res: Result<Tensor<T, D>, PanicKind> = with_t_pair!(lf, l, x, rf, r, y => {
+                let res: Result<Tensor<T, D>, PanicKind> = $pair_t!(lf, l, x, rf, r, y => {
                     if op == "add" { catch(|| x + y) } else { catch(|| x - y) }
                 });
                 panic_or(res, |t| show_tensor(&t))
             }
 
             fn ewise<const D: usize>(l: &TOp<D>, r: &TOp<D>, lf: &str, rf: &str, kind: &str) -> String {
-                let res: Result<Tensor<T, D>, PanicKind> = with_t_ref!(lf, l, x => with_t_rhs!(rf, r, y => {
+                let res: Result<Tensor<T, D>, PanicKind> = $ref_t!(lf, l, x => $rhs_t!(rf, r, y => {
                     match kind {
                         "e" => catch(|| x.elementwise(y, |a, b| a.clone() * b.clone() - b)),
                         "ei" => catch(|| x.elementwise_with_index(y, |_i, a, b| a.clone() * b.clone() - b)),
@@ -1102,18 +1234,18 @@ macro_rules! runner_for {
 
             fn mul2(l: &TOp<2>, r: &TOp<2>, lf: &str, rf: &str) -> String {
                 let res: Result<Tensor<T, 2>, PanicKind> =
-                    with_t_pair!(lf, l, x, rf, r, y => catch(|| x * y));
+                    $pair_t!(lf, l, x, rf, r, y => catch(|| x * y));
                 panic_or(res, |t| show_tensor(&t))
             }
 
             fn dot1(l: &TOp<1>, r: &TOp<1>, lf: &str, rf: &str) -> String {
                 let res: Result<T, PanicKind> =
-                    with_t_ref!(lf, l, x => with_t_rhs!(rf, r, y => catch(|| x.scalar_product(y))));
+                    $ref_t!(lf, l, x => $rhs_t!(rf, r, y => catch(|| x.scalar_product(y))));
                 panic_or(res, |v| format!("value={}", v.show()))
             }
 
             fn scalar<const D: usize>(op: &str, o: &TOp<D>, s: &T, f: &str, sf: &str) -> String {
-                let res: Result<Tensor<T, D>, PanicKind> = with_t!(f, o, x => {
+                let res: Result<Tensor<T, D>, PanicKind> = $one_t!(f, o, x => {
                     let s = s.clone();
                     match (op, sf) {
                         ("sadd", "s") => catch(|| x + s),
@@ -1130,7 +1262,7 @@ macro_rules! runner_for {
             }
 
             fn mbin(op: &str, l: &MOp, r: &MOp, lf: &str, rf: &str) -> String {
-                let res: Result<Matrix<T>, PanicKind> = with_m_pair!(lf, l, x, rf, r, y => {
+                let res: Result<Matrix<T>, PanicKind> = $pair_m!(lf, l, x, rf, r, y => {
                     match op {
                         "add" => catch(|| x + y),
                         "sub" => catch(|| x - y),
@@ -1141,7 +1273,7 @@ macro_rules! runner_for {
             }
 
             fn mscalar(op: &str, o: &MOp, s: &T, f: &str, sf: &str) -> String {
-                let res: Result<Matrix<T>, PanicKind> = with_m!(f, o, x => {
+                let res: Result<Matrix<T>, PanicKind> = $one_m!(f, o, x => {
                     let s = s.clone();
                     match (op, sf) {
                         ("sadd", "s") => catch(|| x + s),
@@ -1158,7 +1290,7 @@ macro_rules! runner_for {
             }
 
             fn mneg(o: &MOp, f: &str) -> String {
-                let res: Result<Matrix<T>, PanicKind> = with_m!(f, o, x => catch(|| -x));
+                let res: Result<Matrix<T>, PanicKind> = $one_m!(f, o, x => catch(|| -x));
                 panic_or(res, |m| show_matrix(&m))
             }
 
@@ -1170,28 +1302,6 @@ macro_rules! runner_for {
             pub struct Env {
                 tens: Vec<(String, AnyT)>,
                 mats: Vec<(String, MOp)>,
-            }
-
-            macro_rules! same_d {
-                ($a:expr, $b:expr, $x:ident, $y:ident => $body:expr) => {
-                    match ($a, $b) {
-                        (AnyT::D0($x), AnyT::D0($y)) => $body,
-                        (AnyT::D1($x), AnyT::D1($y)) => $body,
-                        (AnyT::D2($x), AnyT::D2($y)) => $body,
-                        (AnyT::D3($x), AnyT::D3($y)) => $body,
-                        _ => "bad-op".to_string(),
-                    }
-                };
-            }
-            macro_rules! any_d {
-                ($a:expr, $x:ident => $body:expr) => {
-                    match $a {
-                        AnyT::D0($x) => $body,
-                        AnyT::D1($x) => $body,
-                        AnyT::D2($x) => $body,
-                        AnyT::D3($x) => $body,
-                    }
-                };
             }
 
             fn define_view<const D: usize>(src: &TOp<D>, kind: &str, arg: &str) -> Result<(TOp<D>, String), String> {
@@ -1300,7 +1410,7 @@ macro_rules! runner_for {
                             let via = opt_arg("via", rest).unwrap_or("rt-rt");
                             let (lf, rf) = via.split_once('-').expect("via=l-r");
                             if let (Some(x), Some(y)) = (self.tensor(a), self.tensor(b)) {
-                                same_d!(x, y, p, q => pm(op, p, q, lf, rf))
+                                $same_d!(x, y, p, q => pm(op, p, q, lf, rf))
                             } else if let (Some(x), Some(y)) = (self.matrix(a), self.matrix(b)) {
                                 mbin(op, x, y, lf, rf)
                             } else {
@@ -1311,7 +1421,7 @@ macro_rules! runner_for {
                             let via = opt_arg("via", rest).unwrap_or("rt-rt-e");
                             let parts: Vec<&str> = via.split('-').collect();
                             if let (Some(x), Some(y)) = (self.tensor(a), self.tensor(b)) {
-                                same_d!(x, y, p, q => ewise(p, q, parts[0], parts[1], parts[2]))
+                                $same_d!(x, y, p, q => ewise(p, q, parts[0], parts[1], parts[2]))
                             } else {
                                 "no-operand".into()
                             }
@@ -1344,7 +1454,7 @@ macro_rules! runner_for {
                             let (f, sf) = via.split_once('-').expect("via=f-s");
                             let s = <T as Elem>::parse(s);
                             if let Some(x) = self.tensor(a) {
-                                any_d!(x, p => scalar(op, p, &s, f, sf))
+                                $any_d!(x, p => scalar(op, p, &s, f, sf))
                             } else if let Some(x) = self.matrix(a) {
                                 mscalar(op, x, &s, f, sf)
                             } else {
@@ -1366,15 +1476,17 @@ macro_rules! runner_for {
     };
 }
 
-runner_for!(run_fp, Fp);
-runner_for!(run_rat, Rat);
-runner_for!(run_i64, i64);
+runner_for!(run_fp, Fp, with_t_pair, with_t, with_t_ref, with_t_rhs, with_m_pair, with_m, same_d, any_d);
+runner_for!(run_rat, Rat, with_t_pair_lite, with_t_lite, with_t_ref_lite, with_t_rhs_lite, with_m_pair_lite, with_m_lite, same_d, any_d);
+runner_for!(run_f64, f64, with_t_pair_lite, with_t_lite, with_t_ref_lite, with_t_rhs_lite, with_m_pair_lite, with_m_lite, same_d_lite, any_d_lite);
+runner_for!(run_i64, i64, with_t_pair_lite, with_t_lite, with_t_ref_lite, with_t_rhs_lite, with_m_pair_lite, with_m_lite, same_d_lite, any_d_lite);
 
 enum Case {
     None,
     Fp(run_fp::Env),
     Rat(run_rat::Env),
     I64(run_i64::Env),
+    F64(run_f64::Env),
 }
 
 pub struct Runner {
@@ -1391,11 +1503,13 @@ impl Runner {
             ["@", "fp"] => { self.case = Case::Fp(Default::default()); "ok".into() }
             ["@", "rat"] => { self.case = Case::Rat(Default::default()); "ok".into() }
             ["@", "i64"] => { self.case = Case::I64(Default::default()); "ok".into() }
+            ["@", "f64"] => { self.case = Case::F64(Default::default()); "ok".into() }
             _ => match &mut self.case {
                 Case::None => "no-case".into(),
                 Case::Fp(e) => e.step(toks),
                 Case::Rat(e) => e.step(toks),
                 Case::I64(e) => e.step(toks),
+                Case::F64(e) => e.step(toks),
             },
         }
     }
